@@ -139,6 +139,7 @@ def itercLine (c : CIter) (op : String) : CIter × String :=
     | some s, some h => let c' := c.skipTo s h; (c', citerState c' c.edom)
     | _, _ => (c, "bad-op")
   | ["clear"] => let c' := c.clear; (c', citerState c' c.edom)
+  | ["fresh"] => (CIter.init, citerState CIter.init false)
   | ["next", k] =>
     match kv k with
     | some k => let r := c.next (nextEnv c.it k) k; (r.2, s!"v={r.1} " ++ citerState r.2 r.2.edom)
